@@ -16,6 +16,7 @@
 (*   Yield         it is handed to the caller                                 *)
 (*   End           after the first final reply (or the only reply of a one-   *)
 (*                 shot exchange) nothing further is read                     *)
+(*   WriteFails    the connection refuses a write of the ECR: Fail              *)
 (*   Fail          transport error / undecodable / unexpected frame: one Err  *)
 (*                 item, nothing written, nothing further read                *)
 (*                                                                            *)
@@ -24,6 +25,7 @@
 (*   W("cmd") W("ack") W("data")   a complete frame written                   *)
 (*   R(k)           frame k of the script completely consumed                 *)
 (*   REof           the reader hit the end of the connection                  *)
+(*   WFail          the connection refused a write of the ECR                 *)
 (*   YOk(v) YErr    item handed to the caller (v = variant name)              *)
 (*   End            the stream ended                                          *)
 EXTENDS ZvtParse, TLC
@@ -32,6 +34,7 @@ Ev(e, a, v, n) == [e |-> e, a |-> a, v |-> v, n |-> n]
 W(a) == Ev("w", a, "", 0)
 R(k) == Ev("r", "", "", k)
 REof == Ev("r_eof", "", "", 0)
+WFail == Ev("w_fail", "", "", 0)      \* the connection refused a write of the ECR
 YOk(v) == Ev("y", "ok", v, 0)
 YErr == Ev("y", "err", "", 0)
 End == Ev("end", "", "", 0)
@@ -57,8 +60,11 @@ RequestValid(f, announced) ==
 
 \* ---- the state --------------------------------------------------------------
 \* s = [cmd, frames, next (index of the next frame to read), pc, log, announced]
-Start(cmd, frames, announced) ==
-  [cmd |-> cmd, frames |-> frames, next |-> 1, pc |-> "start", log |-> <<>>, announced |-> announced]
+\* wfail: the wfail-th frame the ECR tries to write (1 = the command, 2.. = its answers) cannot be written - the connection refuses
+\* it (0 = every write succeeds)
+StartW(cmd, frames, announced, wfail) ==
+  [cmd |-> cmd, frames |-> frames, next |-> 1, pc |-> "start", log |-> <<>>, announced |-> announced, wfail |-> wfail]
+Start(cmd, frames, announced) == StartW(cmd, frames, announced, 0)
 
 Terminal(s) == s.pc = "done"
 
@@ -68,9 +74,15 @@ Log(s, evs) == [s EXCEPT !.log = @ \o evs]
 Fail(s, consumed) ==
   [Log(s, consumed \o <<YErr, End>>) EXCEPT !.pc = "done"]
 
+\* frames written so far
+NW(s) == Len(SelectSeq(s.log, LAMBDA e : e.e = "w"))
+\* the next write is the one that fails: a transport error, one Err item, the end (WriteFails)
+WriteFails(s) == s.wfail # 0 /\ NW(s) + 1 = s.wfail
+
 Step(s) ==
   LET sq == SeqOf(s.cmd) IN
   CASE s.pc = "start" ->                                                     \* WriteCommand
+         IF WriteFails(s) THEN Fail(s, <<WFail>>) ELSE
          [Log(s, <<W("cmd")>>) EXCEPT !.pc = "ack"]
     [] s.pc = "ack" ->                                                       \* ReadAck
          IF s.next > Len(s.frames) THEN Fail(s, <<REof>>)
@@ -86,9 +98,10 @@ Step(s) ==
               IF rr = "transport" THEN [Fail(s, <<REof>>) EXCEPT !.next = @ + 1]
               ELSE IF rr = "parse" THEN [Fail(s, <<R(s.next)>>) EXCEPT !.next = @ + 1]
               ELSE IF s.cmd = "WriteFile" /\ rr = "RequestForData"
-                   THEN IF RequestValid(f, s.announced)
-                        THEN [Log(s, <<R(s.next), W("data"), YOk(rr)>>) EXCEPT !.next = @ + 1]
-                        ELSE [Fail(s, <<R(s.next)>>) EXCEPT !.next = @ + 1]       \* BadRequest
+                   THEN IF ~RequestValid(f, s.announced) THEN [Fail(s, <<R(s.next)>>) EXCEPT !.next = @ + 1]       \* BadRequest
+                        ELSE IF WriteFails(s) THEN [Fail(s, <<R(s.next), WFail>>) EXCEPT !.next = @ + 1]
+                        ELSE [Log(s, <<R(s.next), W("data"), YOk(rr)>>) EXCEPT !.next = @ + 1]
+              ELSE IF WriteFails(s) THEN [Fail(s, <<R(s.next), WFail>>) EXCEPT !.next = @ + 1]
               ELSE LET answered == Log(s, <<R(s.next), W("ack"), YOk(rr)>>) IN
                    IF rr \in sq.finals \/ ~sq.loop
                    THEN [Log(answered, <<End>>) EXCEPT !.pc = "done", !.next = @ + 1]
@@ -145,8 +158,9 @@ OneError(log) == \A i, j \in Idx(log, IsErr) : i = j
 ErrorThenSilence(log) ==
   \A i \in Idx(log, IsErr) : \A j \in (i + 1)..Len(log) : log[j] = End
 \* a frame that could not be interpreted is never acknowledged: the error item directly follows the failing read
+\* (or the write the connection refused)
 NoAnswerForBadFrame(log) ==
-  \A i \in Idx(log, IsErr) : i > 1 /\ IsRead(log[i - 1])
+  \A i \in Idx(log, IsErr) : i > 1 /\ (IsRead(log[i - 1]) \/ log[i - 1] = WFail)
 \* the stream always ends, and ends once
 EndsOnce(log) == \A i, j \in Idx(log, IsEnd) : i = j
 
